@@ -41,6 +41,22 @@ Section Quat.
     let w := osqrt O (1 + m00 m + m11 m + m22 m) * ohalf O in
     let w4 := w * o4 O in
     mkQt ((m12 m - m21 m) / w4) ((m20 m - m02 m) / w4) ((m01 m - m10 m) / w4) w.
+  (* four-branch conversion (the header after the "fix:" commit): valid for every rotation *)
+  Definition qfromMatrix (m : M3 T) : Qt :=
+    let tr := m00 m + m11 m + m22 m in
+    if oltb O 0 tr then qfromMatrix_hdr m
+    else if (oltb O (m11 m) (m00 m) && oltb O (m22 m) (m00 m))%bool then
+      let x := osqrt O (1 + m00 m - m11 m - m22 m) * ohalf O in
+      let x4 := x * o4 O in
+      mkQt x ((m01 m + m10 m) / x4) ((m02 m + m20 m) / x4) ((m12 m - m21 m) / x4)
+    else if oltb O (m22 m) (m11 m) then
+      let y := osqrt O (1 + m11 m - m00 m - m22 m) * ohalf O in
+      let y4 := y * o4 O in
+      mkQt ((m01 m + m10 m) / y4) y ((m12 m + m21 m) / y4) ((m20 m - m02 m) / y4)
+    else
+      let z := osqrt O (1 + m22 m - m00 m - m11 m) * ohalf O in
+      let z4 := z * o4 O in
+      mkQt ((m02 m + m20 m) / z4) ((m12 m + m21 m) / z4) z ((m01 m - m10 m) / z4).
   Definition qfromAxisAngle (a : V3 T) (ang : T) : Qt :=
     let d := v3norm O a in
     let s2 := osin O (ang * ohalf O) / d in
